@@ -145,6 +145,11 @@ class Unit:
                 except ValueError:
                     return None
             return self.const_value(n['inner'][0])
+        if k == 'UnaryExprOrTypeTraitExpr' and n.get('name') == 'sizeof':
+            at = n.get('argType')
+            ts = at.get('qualType') if at else strip(n['inner'][0]).get('type', {}).get('qualType')
+            tab = getattr(self, 'sizeofs', None) or {}
+            return tab.get(ts)
         if k == 'IntegerLiteral':
             return int(n['value'])
         if k == 'CharacterLiteral':
